@@ -171,11 +171,72 @@ func (p *Prog) restorersOf(lit *ssa.Function) []restorer {
 	return out
 }
 
-func isMethodOfExecutor(p *Prog, f *ssa.Function) bool {
-	if f == nil || f.Signature.Recv() == nil {
+// fieldSetter: fn does nothing but store one of its parameters into a whole
+// field of the Executor (a named "restore" method or function). Returns the
+// field and the parameter.
+func (p *Prog) fieldSetter(fn *ssa.Function) (*types.Var, *ssa.Parameter) {
+	if fn == nil || fn.Blocks == nil || len(fn.Blocks) != 1 || fnPkgPath(fn) != pkgExec || fn.Parent() != nil {
+		return nil, nil
+	}
+	var f *types.Var
+	var q *ssa.Parameter
+	for _, ins := range fn.Blocks[0].Instrs {
+		switch x := ins.(type) {
+		case *ssa.Store:
+			sf, _ := p.execFieldOf(x.Addr)
+			par, isPar := x.Val.(*ssa.Parameter)
+			if sf == nil || !p.wholeField(x.Addr) || !isPar || f != nil {
+				return nil, nil
+			}
+			f, q = sf, par
+		case *ssa.FieldAddr, *ssa.Return, *ssa.DebugRef, *ssa.UnOp:
+		default:
+			return nil, nil
+		}
+	}
+	return f, q
+}
+
+// setterRestores: call (a plain call or a defer) invokes a field setter for f
+// with a value that traces back to a saving load of f in fn.
+func (p *Prog) setterRestores(fn *ssa.Function, ci ssa.CallInstruction, f *types.Var, isSave func(*ssa.UnOp) bool) bool {
+	sc := ci.Common().StaticCallee()
+	sf, sq := p.fieldSetter(sc)
+	if sf == nil || sf != f {
 		return false
 	}
-	return namedOf(f.Signature.Recv().Type()) == p.A.Executor
+	idx := -1
+	for i, q := range sc.Params {
+		if q == sq {
+			idx = i
+		}
+	}
+	if idx < 0 || idx >= len(ci.Common().Args) {
+		return false
+	}
+	l, lf := p.traceSaved(fn, ci.Common().Args[idx], ci, 0)
+	return l != nil && lf == f && isSave(l)
+}
+
+// isMethodOfExecutor: f is a method of *Executor, or a plain function of
+// package exec that takes the *Executor as one of its parameters (the same
+// thing written the other way round).
+func isMethodOfExecutor(p *Prog, f *ssa.Function) bool {
+	if f == nil {
+		return false
+	}
+	if f.Signature.Recv() != nil {
+		return namedOf(f.Signature.Recv().Type()) == p.A.Executor
+	}
+	if fnPkgPath(f) != pkgExec || f.Parent() != nil {
+		return false
+	}
+	for i := 0; i < f.Signature.Params().Len(); i++ {
+		if pt, ok := f.Signature.Params().At(i).Type().(*types.Pointer); ok && namedOf(pt) == p.A.Executor {
+			return true
+		}
+	}
+	return false
 }
 
 // fieldReadInConstArm: the Executor field loaded in the arm of the value
@@ -308,7 +369,32 @@ func (p *Prog) classifyState() []stateClass {
 					sc.Class, sc.Detail = "unclassified", "function literal writes the field with something other than its saved value"
 				}
 			default:
-				p.classifyNamed(fn, f, ss, entry, &sc)
+				if sf, _ := p.fieldSetter(fn); sf == f {
+					// a named restorer: judged at its call sites, each of which
+					// must hand it a value saved from the same field
+					bad := ""
+					if n := p.CG.Nodes[fn]; n != nil {
+						for _, e := range n.In {
+							if e.Site == nil {
+								continue
+							}
+							caller := e.Caller.Func
+							if !p.setterRestores(caller, e.Site, f, func(*ssa.UnOp) bool { return true }) {
+								bad = fnName(caller) + " at " + p.pos(e.Site.Pos())
+							}
+						}
+						if len(n.In) == 0 {
+							bad = "never called"
+						}
+					}
+					if bad == "" {
+						sc.Class, sc.OK, sc.Detail = "restorer-method", true, "stores its argument into the field; every call site hands it the value saved from that field"
+					} else {
+						sc.Class, sc.Detail = "unclassified", "a setter of the field is called with something other than its saved value ("+bad+")"
+					}
+				} else {
+					p.classifyNamed(fn, f, ss, entry, &sc)
+				}
 			}
 			out = append(out, sc)
 		}
@@ -447,6 +533,10 @@ func (p *Prog) classifyNamed(fn *ssa.Function, f *types.Var, ss []execStore, ent
 		for _, ins := range b.Instrs {
 			d, ok := ins.(*ssa.Defer)
 			if !ok {
+				continue
+			}
+			if p.setterRestores(fn, d, f, isSave) {
+				defers = append(defers, d)
 				continue
 			}
 			var lit *ssa.Function
@@ -599,6 +689,14 @@ func (p *Prog) exitsWithoutRestore(fn *ssa.Function, f *types.Var, ss []execStor
 		}
 		return false
 	}
+	isSaveFn := func(l *ssa.UnOp) bool {
+		for _, s := range saves {
+			if s == l {
+				return true
+			}
+		}
+		return false
+	}
 	in := map[*ssa.BasicBlock]bool{}
 	outD := map[*ssa.BasicBlock]bool{}
 	changed := true
@@ -620,6 +718,9 @@ func (p *Prog) exitsWithoutRestore(fn *ssa.Function, f *types.Var, ss []execStor
 					} else if isMut[st] {
 						d = true
 					}
+				}
+				if c, ok := ins.(*ssa.Call); ok && p.setterRestores(fn, c, f, isSaveFn) {
+					d = false
 				}
 			}
 			if outD[b] != d {
